@@ -19,6 +19,7 @@ ORACLES = {
     "C18.fnv_reference": "default_fnv_1a(key, d)[i] == FNV-1a-64 of the key bytes with basis 14695981039346656037 + 31*i "
                          "(mod 2^64), computed by cref/ref.c and by an independent Python loop; fnv_1a(key, seed) likewise "
                          "for ANY integer seed (negative, > 2^64), so fnv_1a(k, s) == fnv_1a(k, s + t*2^64); fnv_1a_32 with 0x811C9DC5",
+    "C18.fnv_reference(text)": "a non-ASCII text key under FNV-1a must hash as FNV-1a of its code points or of its UTF-8 bytes (either is accepted)",
     "C18.text_is_utf8": "md5/sha256 strategies: str key == its UTF-8 bytes; FNV: ASCII str == its bytes",
     "C18.digest_chain": "default_md5/default_sha256 equal the chain recomputed with hashlib (first 8 digest bytes, native order, "
                         "digest fed back as next key)",
@@ -136,7 +137,18 @@ def _shipped(ctx, key, depth, light=False):
                 if isinstance(key, str):
                     ctx.check("C18.text_is_utf8", r1 == f(kb, depth), f"fnv: ascii text {key!r} hashes unlike its bytes")
             else:
-                # non-ASCII text: code points are mixed in one by one (observed rule); still pure/prefix/range
+                # non-ASCII text: which octets a text key stands for is unspecified, but the result must still be FNV-1a of the
+                # key - either of its code points mixed in one by one (the library's observed rule) or of its UTF-8 bytes
+                cps = [ord(c) for c in key]
+                want_cp = []
+                for i in range(depth):
+                    h = (B64 + 31 * i) & M64
+                    for c in cps:
+                        h = ((h ^ c) * 1099511628211) & M64
+                    want_cp.append(h)
+                want_u8 = [pyfnv64(kb, B64 + 31 * i) for i in range(depth)]
+                ctx.check("C18.fnv_reference", r1 in (want_cp, want_u8),
+                          lambda: f"default_fnv_1a({key!r},{depth}) = {r1} is FNV-1a neither of the code points {want_cp} nor of the UTF-8 bytes {want_u8}")
                 ctx.feat("fnv_non_ascii_text")
         else:
             hf = hashlib.md5 if name == "default_md5" else hashlib.sha256
